@@ -179,9 +179,9 @@ func sortedEqual(a, b []string) bool {
 	return strings.Join(x, "\x00") == strings.Join(y, "\x00")
 }
 
-var c11Big = []string{"a", "a.txt", "a/b", "a/c/d", "a0", "b", "b/x", "dir/y.z", "d/1", "d/2", "d/3", "e", "g/x", "h", "uni/é", "uni/☃.txt", "ab/ab/ab", "x//y", "a.b.c", "zz", "a/", "d/", "uni/", "a/c/", "v1/x", "v10/y", "v1-rc/z", c11Long1, c11Long2} // incl. "folder placeholder" objects (memory store only)
+var c11Big = []string{"a", "a.txt", "a/b", "a/c/d", "a0", "b", "b/x", "dir/y.z", "d/1", "d/2", "d/3", "e", "g/x", "h", "uni/é", "uni/☃.txt", "ab/ab/ab", "x//y", "a.b.c", "zz", "a/", "d/", "uni/", "a/c/", "v1/x", "v10/y", "v1-rc/z", "logs/2024", "logs/2024-01/x", c11Long1, c11Long2} // incl. "folder placeholder" objects (memory store only)
 var c11BigFile = []string{"a.txt", "a/b", "a/c/d", "a0", "b/x", "dir/y.z", "d/1", "d/2", "d/3", "e", "g/x", "h", "uni/é", "uni/☃.txt", "ab/ab/ab", "a.b.c", "zz",
-	"v1/x", "v10/y", "v1-rc/z", c11Long1, c11Long2}
+	"v1/x", "v10/y", "v1-rc/z", "logs/2024", "logs/2024-01/x", c11Long1, c11Long2}
 
 // directory names that are string prefixes of each other (v1/, v10/, v1-rc/) and names longer than
 // 127 bytes (a page cursor is the last name of the page)
